@@ -45,30 +45,30 @@ def oracle(uc, lengths=None, cosines=None, tol=1e-8):
     bad = []
     D, I = np.asarray(uc.direct, float), np.asarray(uc.inverse, float)
     scale = max(1.0, np.abs(D).max() * np.abs(I).max())
-    if not np.allclose(D @ I, np.eye(3), atol=tol * scale):
+    if not np.allclose(D @ I, np.eye(3), rtol=0, atol=tol * scale):
         bad.append("direct.inverse != I")
     ln = np.linalg.norm(D, axis=1)
     if not np.allclose(ln, np.asarray(uc.lengths, float), rtol=tol):
         bad.append("row norms != lengths")
     cosr = [D[1] @ D[2] / ln[1] / ln[2], D[0] @ D[2] / ln[0] / ln[2], D[0] @ D[1] / ln[0] / ln[1]]
-    if not np.allclose(cosr, np.cos(np.asarray(uc.angles, float)), atol=tol):
+    if not np.allclose(cosr, np.cos(np.asarray(uc.angles, float)), rtol=0, atol=tol):
         bad.append("inter-row angles != reported angles")
     if not np.isclose(uc.volume(), abs(np.linalg.det(D)), rtol=tol):
         bad.append("volume != det(direct)")
     x = np.array([[0.3, -1.7, 2.9], [5.5, 0.1, -0.2]])
-    if not np.allclose(uc.to_fractional(uc.to_cartesian(x)), x, atol=tol * scale):
+    if not np.allclose(uc.to_fractional(uc.to_cartesian(x)), x, rtol=0, atol=tol * scale):
         bad.append("to_fractional(to_cartesian(x)) != x")
     rs = np.linalg.norm(I, axis=0)
     if not np.allclose([uc.a_star, uc.b_star, uc.c_star], rs, rtol=tol):
         bad.append("starred lengths != reciprocal vector norms")
     cs = [I[:, 1] @ I[:, 2] / rs[1] / rs[2], I[:, 0] @ I[:, 2] / rs[0] / rs[2], I[:, 0] @ I[:, 1] / rs[0] / rs[1]]
-    if not np.allclose(np.cos([uc.alpha_star, uc.beta_star, uc.gamma_star]), cs, atol=tol):
+    if not np.allclose(np.cos([uc.alpha_star, uc.beta_star, uc.gamma_star]), cs, rtol=0, atol=tol):
         bad.append("starred angles != reciprocal vector angles")
     if not np.allclose(uc.reciprocal_lattice, I.T):
         bad.append("reciprocal_lattice != inverse.T")
     if lengths is not None and not np.allclose(uc.lengths, lengths, rtol=tol):
         bad.append("lengths != requested lengths")
-    if cosines is not None and not np.allclose(np.cos(np.asarray(uc.angles, float)), cosines, atol=tol):
+    if cosines is not None and not np.allclose(np.cos(np.asarray(uc.angles, float)), cosines, rtol=0, atol=tol):
         bad.append("angles != requested angles")
     return bad
 
@@ -97,7 +97,7 @@ def replay_lengths_angles(data):
     else:
         uc = UnitCell.from_lengths_and_angles(lengths, ang)
     bad = oracle(uc, lengths, cos)
-    if how == "vectors" and not np.allclose(np.asarray(uc.inverse, float), np.asarray(uc0.inverse, float), atol=1e-9 * max(1.0, np.abs(uc.inverse).max())):
+    if how == "vectors" and not np.allclose(np.asarray(uc.inverse, float), np.asarray(uc0.inverse, float), rtol=0, atol=1e-9 * max(1.0, np.abs(uc.inverse).max())):
         bad.append("inverse matrices of the two construction routes differ")
     return bool(bad), bad
 
@@ -185,9 +185,9 @@ def run(ctx):
     for lens, angs in (((5.1, 7.2, 9.3), (1.2, 1.7, 1.4)), ((3.0, 3.0, 12.5), (math.pi / 2, math.pi / 2, 2 * math.pi / 3))):
         r = RealUC.from_lengths_and_angles(lens, angs)
         s = UC.from_lengths_and_angles(lens, angs)
-        ok = np.allclose(np.asarray(s.direct, float), r.direct, atol=1e-14) and np.allclose(np.asarray(s.inverse, float), r.inverse, atol=1e-14)
+        ok = np.allclose(np.asarray(s.direct, float), r.direct, rtol=0, atol=1e-14) and np.allclose(np.asarray(s.inverse, float), r.inverse, rtol=0, atol=1e-14)
         s2 = UC(np.array(r.direct))
-        ok = ok and np.allclose(np.asarray(s2.inverse, float), RealUC(np.array(r.direct)).inverse, atol=1e-13)
+        ok = ok and np.allclose(np.asarray(s2.inverse, float), RealUC(np.array(r.direct)).inverse, rtol=0, atol=1e-13)
         ctx.fidelity_check("shimmed unit_cell == real on %s" % (lens,), ok)
         ctx.concrete_note("oracle accepts the real cell %s" % (lens,), not oracle(r, lens, np.cos(angs)), str(oracle(r, lens, np.cos(angs))))
 
@@ -207,7 +207,7 @@ def run(ctx):
                 results = _identities(ctx, ex, p.pc, p.value, tag, lengths, angles, check_star)
             for name, r in results:
                 if r.verdict == "cex":
-                    d = _real_params_from_model(r.model) if r.model is not None else {}
+                    d = _real_params_from_model(r.model) if r.model is not None else {"a": 5.0, "b": 6.5, "c": 7.25, "ca": 0.2, "cb": -0.1, "cg": 0.3}
                     d["how"] = how
                     if extra:
                         d.update(extra)
